@@ -40,10 +40,8 @@ def strContains (s sub : String) : Bool :=
 
 /-- default display of a tag, from the generated `GetDisplayStyle` switch -/
 def defaultDisplay (tag : String) : String :=
-  match Gen.displayCases.find? (fun c => c.1.contains tag) with
-  | some c =>
-    -- the clause body is `return "<value>"`
-    ((c.2.splitOn "\"").getD 1 "block")
+  match Gen.displayTable.find? (fun c => c.1.contains tag) with
+  | some c => c.2
   | none => "block"
 
 def displayOf (A : CAtoms) (id : Nat) (tag : String) : String :=
@@ -78,13 +76,13 @@ def embedTag (tag : String) : Bool :=
 
 mutual
 /-- all text of the subtree is whitespace (`strings.TrimSpace(dom.TextContent(node)) == ""`) -/
-def Node.allBlank (A : CAtoms) : Node → Bool
-  | .text i _ => A.blank i
-  | .elem _ _ _ ks => allBlankL A ks
+def Node.allBlank (blank : Nat → Bool) : Node → Bool
+  | .text i _ => blank i
+  | .elem _ _ _ ks => allBlankL blank ks
   | .other _ _ => true
-def allBlankL (A : CAtoms) : List Node → Bool
+def allBlankL (blank : Nat → Bool) : List Node → Bool
   | [] => true
-  | k :: ks => k.allBlank A && allBlankL A ks
+  | k :: ks => k.allBlank blank && allBlankL blank ks
 end
 
 mutual
@@ -103,7 +101,7 @@ def elemChildren (ks : List Node) : Nat := (ks.filter Node.isElem).length
 
 /-- `isElementWithoutContent` -/
 def withoutContent (A : CAtoms) (n : Node) : Bool :=
-  n.allBlank A &&
+  n.allBlank A.blank &&
   (elemChildren n.kids == 0 || elemChildren n.kids == n.countTag "br" + n.countTag "hr")
 
 /-- `webdoc.GetActionForElement` (display switch and tag switch regenerated: Gen.action*) -/
